@@ -2,7 +2,10 @@
 (* Behaviours of Alerts printed as JSON lines for the replay on the real     *)
 (* provider + API handlers.  The provider's GC runs on a ticker: its period  *)
 (* gcper is chosen per behaviour, the ticker fires half a unit before the    *)
-(* model instants k * gcper (TickGC).                                        *)
+(* model instants k * gcper (TickGC).  Ops "postdup" / "postsame" add bodies *)
+(* with a duplicated label set and repeated requests at one instant (equal   *)
+(* stamps); Obs.swaps lists, for such a step, the outcomes in which the       *)
+(* earlier submission overwrote the later one, with the statement's verdict.  *)
 EXTENDS MC_Alerts
 
 CONSTANTS HistLen, GCPers
